@@ -134,24 +134,26 @@ func (w *KafkaWriter) WriteEvent(e interface{}) {
 
 func (w *KafkaWriter) writingLoop() {
 	for {
-		select {
-		case <-w.batchingLoopDoneCh:
-			w.runningWorkers.Done()
-			return
-		default:
-			messagesToSend := w.messageBuffer.PopMultiple(100)
-			if len(messagesToSend) == 0 {
+		messagesToSend := w.messageBuffer.PopMultiple(100)
+		if len(messagesToSend) == 0 {
+			// Nothing left to write. We may stop only now, after the buffer was drained:
+			// batchingLoop signals that it is done after it pushed every published message.
+			select {
+			case <-w.batchingLoopDoneCh:
+				w.runningWorkers.Done()
+				return
+			default:
 				continue
 			}
-
-			metric := w.newMetric(KAFKAWRITER)
-			metric.AddValue("messages_sent", len(messagesToSend))
-			metric.AddValue("messages_failed", 0)
-
-			w.writeFunction(messagesToSend, &metric)
-
-			monitoring.Send(metric)
 		}
+
+		metric := w.newMetric(KAFKAWRITER)
+		metric.AddValue("messages_sent", len(messagesToSend))
+		metric.AddValue("messages_failed", 0)
+
+		w.writeFunction(messagesToSend, &metric)
+
+		monitoring.Send(metric)
 	}
 }
 
